@@ -1455,6 +1455,7 @@ def work_items(tier, flt):
             items.append({"kind": "leaf", "shard": sh, "n": n_leaf, "cost": 4})
         for sh in range(4 if quick else 8):
             items.append({"kind": "nested", "shard": sh, "n": n_nest, "cost": 6})
+        items.append({"kind": "wide", "shard": 0, "n": int((200 if quick else 1500) * scale), "cost": 2})
     names = envs.select_envs(envs.ENV_NAMES, flt)
     ngroups = 4 if quick else 8
     groups = [names[i::ngroups] for i in range(ngroups)]
@@ -1479,6 +1480,15 @@ def _record(ctx, item, case, E, env, seed):
 def run_item(item, seed, tier):
     ctx = Ctx(PROPERTY, item)
     kind = item["kind"]
+    if kind == "wide":
+        def one_w(case):
+            with ctx.guard("specs", {"kind": "wide", "args": case, "seed": seed}, size=len(repr(case))):
+                E = eval_wide(case)
+                ctx.count("cases_wide")
+                _record(ctx, item, case, E, "specs", seed)
+
+        hyp.drive({"case": wide_case()}, one_w, seed, item["n"])
+        return ctx.result()
     if kind in ("leaf", "nested"):
         strat = leaf_case() if kind == "leaf" else nested_case()
 
@@ -1516,7 +1526,77 @@ def run_item(item, seed, tier):
     return ctx.result()
 
 
+WIDE_DTYPES = ["uint64", "int64", "float64", "uint32", "uint16"]
+Box_ = collections.namedtuple("Box_", ["w"])     # module level: nested specs must survive pickling
+
+
+@st.composite
+def wide_case(draw):
+    """Specs declared with dtypes JAX narrows when x64 is off (uint64 / int64 / float64, as string, NumPy or jnp
+    objects or the Python types) and the unsigned types missing from the main menu; small shapes and bounds."""
+    dt = draw(st.sampled_from(WIDE_DTYPES))
+    dk = draw(st.sampled_from(["str", "np", "jnp"] + (["py"] if dt in ("int64", "float64") else [])))
+    cls = draw(st.sampled_from(["array", "bounded", "discrete", "multi"] if not dt.startswith("float") else ["array", "bounded"]))
+    shape = draw(st.lists(st.integers(0, 3), max_size=2))
+    lo = draw(st.integers(0, 5))
+    return {"dtype": dt, "dk": dk, "cls": cls, "shape": shape, "lo": lo, "hi": lo + draw(st.integers(0, 9)),
+            "n": draw(st.integers(1, 9)), "nest": draw(st.booleans())}
+
+
+def eval_wide(c):
+    """generate -> validate, bounds members, replace and pickle round trip for one wide-dtype spec (optionally as the
+    only field of a nested Spec).  The oracle uses nothing but the spec's own dtype attribute: whatever dtype the spec
+    says it has, the value it generates must carry it and be accepted."""
+    import pickle
+
+    import jax.numpy as jnp
+
+    from jumanji import specs
+
+    E = Eval()
+    dt = {"str": c["dtype"], "np": np.dtype(c["dtype"]), "jnp": getattr(jnp, c["dtype"]),
+          "py": {"int64": int, "float64": float}.get(c["dtype"])}[c["dk"]]
+    shape = tuple(c["shape"])
+    if c["cls"] == "array":
+        sp = specs.Array(shape, dt, "w")
+    elif c["cls"] == "bounded":
+        sp = specs.BoundedArray(shape, dt, c["lo"], c["hi"], "w")
+    elif c["cls"] == "discrete":
+        sp = specs.DiscreteArray(c["n"], dt, "w")
+    else:
+        sp = specs.MultiDiscreteArray(jnp.full(shape or (1,), c["n"], jnp.int32), dt, "w")
+    leaf = sp
+    if c["nest"]:
+        sp = specs.Spec(Box_, "BoxSpec", w=leaf)
+    for tag, s2 in (("spec", sp), ("pickle", pickle.loads(pickle.dumps(sp))), ("replace", leaf.replace(name="w2"))):
+        E.ev("wide_" + tag)
+        try:
+            v = s2.generate_value()
+            s2.validate(v)
+        except Exception as e:  # noqa: BLE001
+            E.fail("generate_value.validate", f"wide:{type(e).__name__}",
+                   f"{tag}: validate(generate_value()) raised for a spec declared with dtype {c['dtype']} ({c['dk']}): "
+                   f"{type(e).__name__}: {str(e)[:200]}")
+            continue
+        lv = v.w if (c["nest"] and tag != "replace") else v
+        want = np.dtype(leaf.dtype)
+        if np.asarray(lv).dtype != want:
+            E.fail("generate_value.member", "wide:dtype", f"{tag}: generate_value() has dtype {np.asarray(lv).dtype}, the spec says {want}")
+        if c["cls"] == "bounded" and tag == "spec" and not c["nest"]:
+            for b in (c["lo"], c["hi"]):
+                E.ev("wide_member")
+                try:
+                    leaf.validate(jnp.full(shape, b).astype(leaf.dtype))
+                except Exception as e:  # noqa: BLE001
+                    E.fail("validate.accepts_members", f"wide:{type(e).__name__}",
+                           f"a value at the bound {b} with the spec's own dtype {leaf.dtype} is rejected: {str(e)[:200]}")
+    E.nontrivial.append(("wide", c["dtype"], c["dk"], c["cls"], c["nest"]))
+    return E
+
+
 def _eval_any(kind, args):
+    if kind == "wide":
+        return eval_wide(args)
     return eval_env(args) if kind == "env" else eval_case(args)
 
 
@@ -1543,6 +1623,8 @@ def shrink(fl):
         return fl  # the fixed single-spec case of an environment is already minimal
     if kind == "env":
         strat = _env_case_strategy(args["env"], args["entry"], args["which"], args.get("first", True))
+    elif kind == "wide":
+        strat = wide_case()
     else:
         strat = leaf_case() if kind == "leaf" else nested_case()
 
